@@ -220,7 +220,10 @@ let () =
   try
     while true do
       let line = input_line stdin in
-      let out = try handle line with e -> "! " ^ Printexc.to_string e in
-      print_string out; print_char '\n'; flush stdout
+      if line = "(sync)" then flush stdout
+      else begin
+        let out = try handle line with e -> "! " ^ Printexc.to_string e in
+        print_string out; print_char '\n'
+      end
     done
   with End_of_file -> ()
